@@ -14246,9 +14246,10 @@ gcry_error_t CallasDonnerhackeFinneyShawThayerRFC4880::SymmetricEncryptAEAD
 			" and |ad| = " << ad.size() << std::endl;
 	}
 	// initially set nonce (starting IV) for AEAD algorithm
-	unsigned char ivbuf[16];
+	unsigned char ivbuf[16], ivstart[16];
 	memset(ivbuf, 0, sizeof(ivbuf));
 	gcry_randomize(ivbuf, is, GCRY_STRONG_RANDOM);
+	memcpy(ivstart, ivbuf, sizeof(ivstart)); // keep the starting IV
 	if (verbose > 2)
 		std::cerr << "INFO: SymmetricEncryptAEAD nonce = " << std::hex;
 	for (size_t i = 0; ((i < is) && (i < sizeof(ivbuf))); i++)
@@ -14388,6 +14389,9 @@ gcry_error_t CallasDonnerhackeFinneyShawThayerRFC4880::SymmetricEncryptAEAD
 				std::cerr << "INFO: SymmetricEncryptAEAD on chunk #" <<
 					chunkidx << " with nbytes = " << nbytes << std::endl;
 			}
+			// every nonce is derived from the starting IV (not from the nonce
+			// of the previous chunk)
+			memcpy(ivbuf, ivstart, sizeof(ivbuf));
 			switch (aeadalgo)
 			{
 				// The nonce for EAX mode is computed by treating the starting
@@ -14511,6 +14515,9 @@ gcry_error_t CallasDonnerhackeFinneyShawThayerRFC4880::SymmetricEncryptAEAD
 			std::cerr << "INFO: SymmetricEncryptAEAD on final chunk #" <<
 				chunkidx << " with nbytes = " << nbytes << std::endl;
 		}
+		// every nonce is derived from the starting IV (not from the nonce
+		// of the previous chunk)
+		memcpy(ivbuf, ivstart, sizeof(ivbuf));
 		switch (aeadalgo)
 		{
 			case TMCG_OPENPGP_AEADALGO_EAX:
@@ -14643,6 +14650,9 @@ gcry_error_t CallasDonnerhackeFinneyShawThayerRFC4880::SymmetricEncryptAEAD
 				totalbytes << std::endl;
 		}
 		chunkidx++;
+		// every nonce is derived from the starting IV (not from the nonce
+		// of the previous chunk)
+		memcpy(ivbuf, ivstart, sizeof(ivbuf));
 		switch (aeadalgo)
 		{
 			case TMCG_OPENPGP_AEADALGO_EAX:
@@ -15057,7 +15067,7 @@ gcry_error_t CallasDonnerhackeFinneyShawThayerRFC4880::SymmetricDecryptAEAD
 			" and |ad| = " << ad.size() << std::endl;
 	}
 	// initially set nonce (starting IV) for AEAD algorithm
-	unsigned char ivbuf[16];
+	unsigned char ivbuf[16], ivstart[16];
 	memset(ivbuf, 0, sizeof(ivbuf));
 	if (verbose > 2)
 		std::cerr << "INFO: SymmetricDecryptAEAD nonce = " << std::hex;
@@ -15067,6 +15077,7 @@ gcry_error_t CallasDonnerhackeFinneyShawThayerRFC4880::SymmetricDecryptAEAD
 		if (verbose > 2)
 			std::cerr << (int)ivbuf[i] << " ";
 	}
+	memcpy(ivstart, ivbuf, sizeof(ivstart)); // keep the starting IV
 	if (verbose > 2)
 		std::cerr << std::dec << std::endl;
 	if (ad.size() == 4) // identifies an AEAD-encrypted SKESK packet (version 5)
@@ -15185,6 +15196,9 @@ gcry_error_t CallasDonnerhackeFinneyShawThayerRFC4880::SymmetricDecryptAEAD
 				std::cerr << "INFO: SymmetricDecryptAEAD on chunk #" <<
 					chunkidx << " with nbytes = " << nbytes << std::endl;
 			}
+			// every nonce is derived from the starting IV (not from the nonce
+			// of the previous chunk)
+			memcpy(ivbuf, ivstart, sizeof(ivbuf));
 			switch (aeadalgo)
 			{
 				// The nonce for EAX mode is computed by treating the starting
@@ -15282,6 +15296,9 @@ gcry_error_t CallasDonnerhackeFinneyShawThayerRFC4880::SymmetricDecryptAEAD
 			std::cerr << "INFO: SymmetricDecryptAEAD on final chunk #" <<
 				chunkidx << " with nbytes = " << nbytes << std::endl;
 		}
+		// every nonce is derived from the starting IV (not from the nonce
+		// of the previous chunk)
+		memcpy(ivbuf, ivstart, sizeof(ivbuf));
 		switch (aeadalgo)
 		{
 			case TMCG_OPENPGP_AEADALGO_EAX:
@@ -15403,6 +15420,9 @@ gcry_error_t CallasDonnerhackeFinneyShawThayerRFC4880::SymmetricDecryptAEAD
 				totalbytes << std::endl;
 		}
 		chunkidx++;
+		// every nonce is derived from the starting IV (not from the nonce
+		// of the previous chunk)
+		memcpy(ivbuf, ivstart, sizeof(ivbuf));
 		switch (aeadalgo)
 		{
 			case TMCG_OPENPGP_AEADALGO_EAX:
